@@ -187,7 +187,17 @@ def eval_group(case):
                             break
         # ---- unlist == stable sort
         try:
+            snapL = snapshot(L)
+            cellsL = [[list(c) if isinstance(c, list) else c for c in col] for _, col in snapL]
             u = L.unlist()
+            # the grouped table is still the caller's: unlist leaves it (and the lists in its cells) as they were, so a second unlist agrees with the first
+            nowL = [[list(c) if isinstance(c, list) else c for c in col] for _, col in snapshot(L)]
+            if not unchanged(L, snapL) or nowL != cellsL:
+                fail('C11:unlist:receiver-unchanged', 'listby(%r).unlist() altered the listby table: cells %r, before %r' % (by, nowL, cellsL))
+            else:
+                u_again = L.unlist()
+                if table_rows(u_again)[1] != table_rows(u)[1]:
+                    fail('C11:unlist:repeatable', 'a second unlist() of the same listby table gives %r, the first gave %r' % (table_rows(u_again)[1], table_rows(u)[1]))
             uc, ur, rect = table_rows(u)
             exp = stable_sorted(rows, by)
             if not rect or set(uc) != set(cols) or not rows_equal(ur, exp, cols):
@@ -224,7 +234,17 @@ def eval_group(case):
                         break
         # ---- ungroup restores the multiset
         try:
+            sizes_before = [len(r[grp]) if hasattr(r[grp], '__len__') else None for r in G]
+            cols_before = [[list(v) for v in dict(r[grp]).values()] if isinstance(r[grp], dict) else None for r in G]
             u = G.ungroup() if grp == 'grp' else G.ungroup(grp)
+            sizes_after = [len(r[grp]) if hasattr(r[grp], '__len__') else None for r in G]
+            cols_after = [[list(v) for v in dict(r[grp]).values()] if isinstance(r[grp], dict) else None for r in G]
+            if sizes_after != sizes_before or cols_after != cols_before:
+                fail('C11:ungroup:receiver-unchanged', 'groupby(%r).ungroup() altered the sub-tables of the grouped table: sizes %r, before %r' % (by, sizes_after, sizes_before))
+            else:
+                u_again = G.ungroup() if grp == 'grp' else G.ungroup(grp)
+                if Counter(crow(r, cols) for r in table_rows(u_again)[1]) != Counter(crow(r, cols) for r in table_rows(u)[1]):
+                    fail('C11:ungroup:repeatable', 'a second ungroup() of the same grouped table gives other rows than the first')
             uc, ur, rect = table_rows(u)
             if not rect or set(uc) != set(cols) or Counter(crow(r, cols) for r in ur) != Counter(crow(r, cols) for r in rows):
                 fail('C11:ungroup:multiset', 'groupby(%r).ungroup() has rows %r, the table has %r' % (by, [[r.get(c) for c in cols] for r in ur], [[r[c] for c in cols] for r in rows]))
